@@ -102,10 +102,9 @@ class PolyhedralConeOrder(Order):
         pareto_indices = []
         for el_i, el in enumerate(elements):
             for other_el in elements:
-                if np.allclose(el, other_el):
-                    continue
-
-                if self.dominates(other_el, el):
+                # Only a strictly dominating element removes `el`; equal (or, for non-pointed
+                # cones, equivalent) elements are all kept.
+                if self.dominates(other_el, el) and not self.dominates(el, other_el):
                     break
             else:
                 pareto_indices.append(el_i)
